@@ -664,6 +664,11 @@ SM_ESCAPES = {
     "core": [{"B": "A"}, {"A": "B"}, {"A": "B", "B": "A"}, {"B": "A & !C"}, {"A": "B & !C"}],
     "xnor": [{"P": "Q"}, {"Q": "P"}, {"P": "Q", "Q": "P"}],
 }
+# clean modules over the same variables with the same single stable motif (all ones) and no motif-avoidant attractor
+SM_CLEAN_ALTERNATIVES = {
+    "core": [{"A": "!A | (B & C)", "B": "!B | (A & C)", "C": "!C | (A & B)"}, {"A": "!A | C", "B": "!B | C", "C": "A & B"}, {"A": "B | C | !A", "B": "(A & C) | !B", "C": "A & B"}],
+    "xnor": [{"P": "!P | Q", "Q": "!Q | P"}, {"P": "!P | Q", "Q": "(P & Q) | (!P & !Q)"}],
+}
 # controllers: (rules with the placeholders {g}, {h}; the two valuations of the controller variables that are visited)
 SM_CONTROLLERS = {
     "source": ("{g}, {g}", lambda g, h: [{g: 0}, {g: 1}]),
@@ -725,6 +730,16 @@ def same_motif_cond_nets(seed: int, tier: str, accept=None):
                 rules[v] = f"{rules[v]} | (({cond}) & ({t}))"
             b = norm("I, I; J, J") + "\n" + to_bnet(list(rules.items()))
             yield from emit(f"smc2_{module}_{cond.replace(' ', '')}", b, [{"I": i, "J": j} for i in (0, 1) for j in (0, 1)])
+    # multiplexed modules: under one controller value the motif-avoidant module, under the other a DIFFERENT clean module with the same stable motif
+    for module in SM_MODULES:
+        for k, alt in enumerate(SM_CLEAN_ALTERNATIVES[module]):
+            for positive in (False, True):
+                for controller, names in (("source", ("s", "t")), ("source", ("I", "J")), ("switch", ("s", "t"))):
+                    g, h = names
+                    on, off = (g, "!" + g) if positive else ("!" + g, g)
+                    rules = [(v, f"({on} & ({e})) | ({off} & ({alt[v]}))") for v, e in SM_MODULES[module].items()]
+                    ctext, vals = SM_CONTROLLERS[controller]
+                    yield from emit(f"smx_{controller}_{module}{k}_{int(positive)}_{g}", norm(norm(ctext.format(g=g, h=h)) + "\n" + to_bnet(rules)), vals(g, h))
     # seeded perturbations
     rng = random.Random(seed * 53 + 11)
     kept = 0
@@ -823,6 +838,54 @@ def random_limited_history(rng: random.Random, names):
     pre = random_history(rng.randrange(1 << 30), names, rng.randint(0, 2), ["bfs", "bfs", "dfs", "succ", "min", "aseeds"])
     final = ["dfs", None, rng.randint(0, 4), None] if rng.random() < 0.5 else ["aseeds", rng.randint(1, 12)]
     return pre, final
+
+
+# ---- (3d) variables that BECOME sources once an input is fixed (x, x & s), next to other blocks --------------------------------------------
+EMERGENT_FIRST = norm("p, q; q, p; s, s; x, x & s; y, y & s")  # the instance that revealed the shape: under s = 1, x and y are new inputs
+EMERGENT_FORMS = ["{x} & {s}", "{x} | !{s}", "{x} | {s}", "{x} & !{s}", "({x} & {s}) | ({x} & {t})", "{x} & ({s} | {p})"]
+EMERGENT_MODULES = {
+    "switch": "p, q; q, p",
+    "toggle": "p, !q; q, !p",
+    "maa_core": "A, (!A & !B) | C; B, (!A & !B) | C; C, A & B; p, p | C",
+    "down_latch": "p, p | ({x} & q); q, q",
+    "down_switch": "p, q | {x}; q, p",
+    "gated_osc": "p, !p & {x}",
+    "none": "",
+}
+
+
+def emergent_source_net(forms, module: str, two_inputs: bool = False) -> str:
+    xs = ["x", "y", "z"][: len(forms)]
+    rules = [("s", "s")] + ([("t", "t")] if two_inputs else [])
+    mod = EMERGENT_MODULES[module].format(x=xs[0])
+    for x, f in zip(xs, forms):
+        rules.append((x, f.format(x=x, s="s", t="t" if two_inputs else "s", p="p" if "p," in mod else "s")))
+    return norm(to_bnet(rules) + ("\n" + norm(mod) if mod else ""))
+
+
+def emergent_source_nets(seed: int, tier: str):
+    """(name, bnet): networks with 1-2 free inputs in which 1-3 further variables become inputs after percolating an input valuation, next to an
+    independent / downstream bistable or motif-avoidant module.  First the instance that revealed the shape, then forms x modules, then seeded mixes."""
+    seen = set()
+
+    def emit(name, b):
+        if b in seen or len(variables(b)) > 8:
+            return []
+        seen.add(b)
+        return [(name, b)]
+
+    yield from emit("emergent_first", EMERGENT_FIRST)
+    for module in EMERGENT_MODULES:
+        for k, f in enumerate(EMERGENT_FORMS):
+            two = "{t}" in f
+            yield from emit(f"emergent_{module}_{k}x2", emergent_source_net([f, f], module, two))
+            if k < 2:
+                yield from emit(f"emergent_{module}_{k}x1", emergent_source_net([f], module, two))
+                yield from emit(f"emergent_{module}_{k}x3", emergent_source_net([f, f, f], module, two))
+    rng = random.Random(seed * 59 + 7)
+    for i in range(80 if tier == "quick" else 800):
+        forms = [rng.choice(EMERGENT_FORMS) for _ in range(rng.choice([1, 2, 2, 3]))]
+        yield from emit(f"emergent{seed}_{i}", emergent_source_net(forms, rng.choice(list(EMERGENT_MODULES)), any("{t}" in f for f in forms) or rng.random() < 0.3))
 
 
 # ---- (4) ties between minimal source blocks whose variable names interleave alphabetically -------------------------
